@@ -95,7 +95,13 @@ inductive Fn
   | autLazy0 | autLazy1  -- the two components of AutomorphismHoistedLazy(ctInNTT, rot k)  args [k-tag, s0, s1]
   | autH0 | autH1        -- the two components of AutomorphismHoisted(ctInNTT, rot 2^i)
   | modDown   -- ModDownQPtoQNTT
-  | tag (k : Nat) -- a constant (rotation index) used as a first argument
+  | ntt       -- ring.NTT / NTTLazy                     (encryptor, decryptor, key-generation protocols)
+  | reduce    -- ring.Reduce
+  | mulMSub   -- MulCoeffsMontgomeryThenSub(a, b, acc): acc - a·b      args [a, b, acc]
+  | extend    -- ringqp.ExtendBasisSmallNormAndCenter (Q part → Q and P parts of the same polynomial)
+  | mulP      -- MulScalarBigint(skIn, P, ·)            (EvaluationKeyGenProtocol.GenShare with an auxiliary modulus)
+  | mulS2     -- MulScalar(·, 2^BaseTwoDecomposition, ·)
+  | tag (k : Nat) -- a constant: a rotation index used as a first argument, or (no argument) the k-th draw of a sampler
 deriving DecidableEq, Repr
 
 structure Step where
@@ -149,10 +155,21 @@ def fBatched : Nat := 22  -- IsBatched
 def fNTT : Nat := 23      -- IsNTT
 def metaFields : List Nat := [fRows, fCols, fBatched, fNTT]
 
-def isScratch (o : Nat) : Bool := o == bq || o == bqp || o == bct || o == bqm || o == 14
+def encBuf : Nat := 15   -- rlwe.Encryptor.encryptorBuffers.buffQP
+def decBuf : Nat := 16   -- rlwe.Decryptor.buff
+def protoBuf : Nat := 17 -- multiparty.EvaluationKeyGenProtocol.buff
+def crpArg : Nat := 6    -- the common reference polynomial handed to a GenShare (an input, like `bigArg`)
+
+def isScratch (o : Nat) : Bool :=
+  o == bq || o == bqp || o == bct || o == bqm || o == 14 || o == encBuf || o == decBuf || o == protoBuf
 
 def L (o f : Nat) : Loc := ⟨o, f⟩
 def st (dst : Loc) (fn : Fn) (args : List Loc) : Step := ⟨dst, fn, args⟩
+
+/-- `lo, lo+1, …, lo+cnt-1` -/
+def fromTo (lo : Nat) : Nat → List Nat
+  | 0 => []
+  | cnt + 1 => lo :: fromTo (lo + 1) cnt
 
 /-! ### metadata of the receiver: rlwe.Evaluator.InitOutputBinaryOp / InitOutputUnaryOp
     (core/rlwe/evaluator.go:147-187, 203-222), the first thing every Add/Sub/Mul… does -/
@@ -498,11 +515,6 @@ def addIntoOld {α : Type} (zero : α) (add : α → α → α) (op0 op1 out : L
 
 /-! ### degrees 0/1/2 in the pointer-branching routines -/
 
-/-- `lo, lo+1, …, lo+cnt-1` -/
-def fromTo (lo : Nat) : Nat → List Nat
-  | 0 => []
-  | cnt + 1 => lo :: fromTo (lo + 1) cnt
-
 /-- degree part of `Element.Resize(degree, ·)` on object `o` of current degree `d` (element.go:170-177):
     the polynomials `d+1 … degree` are freshly allocated, i.e. zero; a larger degree is cut (no write) -/
 def resizeSteps (o d degree : Nat) : Prog :=
@@ -738,6 +750,65 @@ def OpS.docDegree (op : OpS) (d0 d1 dOut : Nat) : Nat :=
   | .rlweAut => dOut
   | .rlwePTS => 1
 
+/-! ### encryptor, decryptor, key-generation protocols (degree 1, one RNS row): which argument is read, which
+    buffer is written, in program order.  A draw of a sampler is a step without arguments (`tag k`). -/
+
+/-- rlwe.Encryptor.Encrypt(pt, ct) under a secret key, NTT-domain target of degree 1 (core/rlwe/encryptor.go:148-166,
+    368-442): `*ct.MetaData = *pt.MetaData`; c1 := uniform draw INTO ct.Value[1]; c0 := -(c1·sk); e := Gaussian draw into
+    buffQP[0].Q, NTT; c0 += e; c0 += pt.   Roles: op0 = pt, op1 = sk, out = ct. -/
+def encryptSkProg (p : Pat) : Prog :=
+  let pt := p.op0; let sk := p.op1; let o := p.out
+  [ st (L o fScale) .copy [L pt fScale], st (L o fMeta) .copy [L pt fMeta],
+    st (L o 1) (.tag 1) [],
+    st (L o 0) .mulM [L o 1, L sk 0], st (L o 0) .neg [L o 0],
+    st (L encBuf 0) (.tag 2) [], st (L encBuf 0) .ntt [L encBuf 0],
+    st (L o 0) .add [L o 0, L encBuf 0],
+    st (L o 0) .add [L o 0, L pt 0] ]
+
+/-- rlwe.Decryptor.Decrypt(ct, pt), degree-1 ciphertext (core/rlwe/decryptor.go:50-88); `ntt` = ct.IsNTT.
+    Roles: op0 = ct, op1 = sk, out = pt. -/
+def decryptProg (ntt : Bool) (p : Pat) : Prog :=
+  let ct := p.op0; let sk := p.op1; let o := p.out
+  [ st (L o fScale) .copy [L ct fScale], st (L o fMeta) .copy [L ct fMeta] ] ++
+  (if ntt then
+    [ st (L o 0) .copy [L ct 1], st (L o 0) .mulM [L o 0, L sk 0], st (L o 0) .add [L o 0, L ct 0],
+      st (L o 0) .reduce [L o 0] ]
+   else
+    [ st (L o 0) .ntt [L ct 1], st (L o 0) .mulM [L o 0, L sk 0],
+      st (L decBuf 0) .ntt [L ct 0], st (L o 0) .add [L o 0, L decBuf 0],
+      st (L o 0) .reduce [L o 0], st (L o 0) .intt [L o 0] ])
+
+/-- multiparty.PublicKeyGenProtocol.GenShare(sk, crp, shareOut) (multiparty/keygen_cpk.go:70-83).
+    Roles: op0 = sk, `crpArg` = crp, out = share. -/
+def ckgGenShareProg (p : Pat) : Prog :=
+  let sk := p.op0; let o := p.out
+  [ st (L o 0) (.tag 3) [], st (L o 0) .extend [L o 0], st (L o 0) .ntt [L o 0], st (L o 0) .mform [L o 0],
+    st (L o 0) .mulMSub [L sk 0, L crpArg 0, L o 0] ]
+
+/-- one base-two digit `j` of EvaluationKeyGenProtocol.GenShare -/
+def evkDigit (hasP : Bool) (skOut o work : Nat) (j : Nat) : Prog :=
+  [ st (L o j) (.tag (10 + j)) [] ] ++
+  (if hasP then [st (L o j) .extend [L o j]] else []) ++
+  [ st (L o j) .ntt [L o j], st (L o j) .mform [L o j],
+    st (L o j) .add [L o j, L work 0],
+    st (L o j) .mulMSub [L crpArg j, L skOut 0, L o j],
+    st (L work 0) .mulS2 [L work 0] ]
+
+/-- multiparty.EvaluationKeyGenProtocol.GenShare(skIn, skOut, crp, shareOut), one RNS row, `digits` base-two digits
+    (multiparty/keygen_evk.go:115-210): skIn is first brought into `evkg.buff[0].Q` — multiplied by P when the key has an
+    auxiliary modulus, COPIED otherwise — and that buffer is multiplied by 2^w after every digit.
+    Roles: op0 = skIn, op1 = skOut, `crpArg` = crp, out = share (field j = digit j). -/
+def evkGenShareProg (hasP : Bool) (digits : Nat) (p : Pat) : Prog :=
+  let skIn := p.op0; let skOut := p.op1; let o := p.out
+  [ if hasP then st (L protoBuf 0) .mulP [L skIn 0] else st (L protoBuf 0) .copy [L skIn 0] ] ++
+  (fromTo 0 digits).flatMap (evkDigit hasP skOut o protoBuf)
+
+/-- a variant that is NOT input-preserving (the shape of a seeded regression; never the code of /repo): without an
+    auxiliary modulus the working polynomial IS skIn's, and the multiplication by 2^w after each digit rewrites the
+    caller's secret key -/
+def evkGenShareProgInPlace (digits : Nat) (p : Pat) : Prog :=
+  (fromTo 0 digits).flatMap (evkDigit false p.op1 p.out p.op0)
+
 /-! ### the interpretation used by the driver and the counterexamples: `Int`, every symbol a
     different affine/multiplicative map so that distinct expressions get distinct values on the
     test store -/
@@ -787,6 +858,12 @@ def intFn : Fn → List Int → Int
   | .autH0, [x, y] => 41 * x + y
   | .autH1, [x, y] => x + 43 * y
   | .modDown, [x] => x - 2
+  | .ntt, [x] => 3 * x + 2
+  | .reduce, [x] => x
+  | .mulMSub, [a, b, acc] => acc - a * b
+  | .extend, [x] => x + 1
+  | .mulP, [x] => 53 * x
+  | .mulS2, [x] => 4 * x
   | .tag k, _ => k
   | _, _ => 0
 
@@ -803,6 +880,7 @@ def testStore : Store Int := ⟨fun l =>
 inductive Op
   | ckksEval | ckksMul | ckksMulRelin | bgvTensor | bgvTensorRelin | bgvTensorSI | bgvTensorSIRelin
   | bgvMatchScale | bgvAddBig | bgvMulBig | rlweAut | rlwePTS (n : Nat) | divRound | divRoundNTT
+  | encryptSk | decrypt (ntt : Bool) | ckgGenShare | evkGenShare (hasP : Bool) (digits : Nat)
 deriving DecidableEq, Repr
 
 /-- the arithmetic part of an operation -/
@@ -822,6 +900,10 @@ def Op.valueProg {α : Type} (I : Interp α) (op : Op) (p : Pat) (σ : Store α)
   | .rlwePTS n => rlwePTSProg n p
   | .divRound => divRoundProg p
   | .divRoundNTT => divRoundNTTProg p
+  | .encryptSk => encryptSkProg p
+  | .decrypt ntt => decryptProg ntt p
+  | .ckgGenShare => ckgGenShareProg p
+  | .evkGenShare hasP digits => evkGenShareProg hasP digits p
 
 /-- the metadata initialisation that precedes it -/
 def Op.metaProg (op : Op) (p : Pat) : Prog :=
@@ -842,6 +924,10 @@ def Op.outFields : Op → List Nat
   | .ckksMul | .bgvTensor | .bgvTensorSI => [0, 1, 2, fScale] ++ metaFields
   | .rlweAut | .rlwePTS _ => [0, 1, fScale, fMeta]
   | .divRound | .divRoundNTT => [0, 1]
+  | .encryptSk => [0, 1, fScale, fMeta]
+  | .decrypt _ => [0, fScale, fMeta]
+  | .ckgGenShare => [0]
+  | .evkGenShare _ digits => fromTo 0 digits
   | .bgvAddBig | .bgvMulBig => [0, 1] ++ metaFields
   | _ => [0, 1, fScale] ++ metaFields
 
@@ -878,8 +964,19 @@ def predictInputs (op : Op) (s0 s1 : Int) : Outcome :=
   let p := Alias.distinct.pat
   let σ := patStore p s0 s1
   let r := op.exec intI p σ
-  if ([p.op0, p.op1, bigArg].all fun o => Op.inputFields.all fun f => r ⟨o, f⟩ == σ ⟨o, f⟩)
+  if ([p.op0, p.op1, bigArg, crpArg].all fun o => Op.inputFields.all fun f => r ⟨o, f⟩ == σ ⟨o, f⟩)
   then .sameAsFresh else .differs
+
+/-- model prediction for `hist`: the call into a receiver and with buffers that hold residue of earlier use
+    (every non-input object rewritten) against the call on the test store: do the result fields agree? -/
+def predictHistory (op : Op) (s0 s1 : Int) : Outcome :=
+  let p := Alias.distinct.pat
+  let σ := patStore p s0 s1
+  let σr : Store Int := ⟨fun l =>
+    if l.obj = p.op0 ∨ l.obj = p.op1 ∨ l.obj = bigArg ∨ l.obj = crpArg then σ l else 777777 + 13 * l.obj + l.fld⟩
+  let r := op.exec intI p σ
+  let r' := op.exec intI p σr
+  if op.outFields.all (fun f => r ⟨p.out, f⟩ == r' ⟨p.out, f⟩) then .sameAsFresh else .differs
 
 /-- model prediction for `history_free` of ct+ct Add/Sub at the level of polynomial lists:
     previous degree of the output `dOut`, operand degrees `d0 d1`. -/
